@@ -314,7 +314,8 @@ class CompositeFrontend(ConstrainedFrontend):
     #
 
     def _ensure_sat(self, extra_constraints):
-        if self._unsat or (len(extra_constraints) == 0 and not self.satisfiable()):
+        # also under extra constraints: a child the query does not touch may be unsatisfiable
+        if self._unsat or not self.satisfiable(extra_constraints=extra_constraints):
             raise UnsatError("CompositeSolver is already unsat")
 
     def check_satisfiability(self, extra_constraints=(), exact=None):
